@@ -9,6 +9,7 @@ quantify over `rec`/`fuel`/scripts hold for every re-entrant behaviour.
 import DefconModel.Lemmas.Notify
 import DefconModel.Lemmas.NotifyGlob
 import DefconModel.Lemmas.NotifyOnce
+import DefconModel.Lemmas.NotifyBound
 
 namespace DefconModel.Props.C04
 open DefconModel DefconModel.Notify
@@ -399,6 +400,25 @@ theorem overlapping_holds_deliver_once (fuel : Nat) (c : Center) (ops : List Op)
   obtain ⟨_, h1⟩ := run_St_once n s d o fuel c q0 hsl ops c [] hops hone (Frame.refl c) h0
   exact St_final n s d o (by simpa using h1) hfin
 
+/-- The same histories with `(n, s, d)` posted SEVERAL times: equal pending copies coalesce, so the
+number of deliveries is bounded rather than determined - but it is never zero and never more than
+the number of posts, and every time `o` is served it is served in full: the log filtered to `o`
+and `(n, s, d)` is `j` repetitions of `due`, with `1 ≤ j ≤` the number of posts. -/
+theorem repeated_posts_deliver_between_once_and_each (fuel : Nat) (c : Center) (ops : List Op) (n : Name) (s : Obj)
+    (d : Data) (o : Obj) (hs : c.scripts = []) (hd : c.disabled = []) (hq : pend c n s d o = 0) (hsl : s ∉ c.dead)
+    (hops : ∀ op ∈ ops, isHoldOrPost op = true) (hposted : 1 ≤ postsOf n s d ops)
+    (hfin : (run (fuel + 1) c ops).1.holds = []) :
+    ∃ j, 1 ≤ j ∧ j ≤ postsOf n s d ops ∧
+      delTo n s d o (run (fuel + 1) c ops).2 = (List.replicate j (due c n s d o)).flatten := by
+  have q0 : Quiet c := ⟨hs, hd⟩
+  have h0 : Gd n s d o c 0 c [] [] := ⟨0, rfl, by simp [hq, cntL], fun h => absurd h (by omega)⟩
+  obtain ⟨_, j, h1, h2, h3⟩ := run_Gd n s d o fuel c q0 hsl ops 0 c [] hops (Frame.refl c) h0
+  have hp : pend (run (fuel + 1) c ops).1 n s d o = 0 := by rw [pend_eq, hfin]; rfl
+  have hz : cntL n s d o [] = 0 := rfl
+  rw [hp, hz] at h2 h3
+  refine ⟨j, by have := h3 (by omega); omega, by omega, ?_⟩
+  simpa [batches] using h1
+
 /-- The same, started in the middle: when exactly one copy of `(n, s, d)` is pending for `o` (in
 whichever queue, restricted to `o` or not), then whatever holds are requested and released and
 whatever else is posted afterwards, in whatever order: once no hold is left, `o` has received it
@@ -692,6 +712,14 @@ example : (run 8 demo overlapOps).2 =
     [.ret .ok, .deliver 11 1 1 2 7, .deliver 12 2 1 2 7, .ret .ok, .ret .ok, .ret .ok, .ret .ok,
      .deliver 11 1 1 2 5, .deliver 10 2 1 2 5, .deliver 12 2 1 2 5, .deliver 10 1 1 2 5,
      .deliver 10 2 1 2 7, .deliver 10 1 1 2 7, .ret .ok] := by decide
+
+/-- `(1, 2, 7)` posted three times - twice while observer 10 is held (they coalesce), once after -/
+def repeatOps : List Op :=
+  [.hold none none (some 10) none, .post 1 2 7 none, .post 1 2 7 none, .release none none (some 10), .post 1 2 7 none]
+example : pend demo 1 2 7 10 = 0 ∧ (∀ op ∈ repeatOps, isHoldOrPost op = true) ∧ postsOf 1 2 7 repeatOps = 3 ∧
+    (run 8 demo repeatOps).1.holds = [] ∧
+    delTo 1 2 7 10 (run 8 demo repeatOps).2 = (List.replicate 2 (due demo 1 2 7 10)).flatten ∧
+    delTo 1 2 7 11 (run 8 demo repeatOps).2 = (List.replicate 3 (due demo 1 2 7 11)).flatten := by decide
 
 /-- one pending copy, restricted to 12, sitting in the queue of a hold on everything -/
 def demoPending : Center :=
